@@ -2,6 +2,7 @@ import Vgi.Model.Values
 /-!
 Model of parameter binding (`vgirpc/types_deserialize.go: deserializeParams`, C07):
 
+* a batch without rows binds nothing: after the gate only a struct without tagged fields runs,
 * the wrapped-request unwrapping (a batch whose only column is a binary `request` holding an IPC
   stream is replaced by the first batch of that stream, recursively),
 * the `Schema.Equal` gate against the declared schema (`describeStruct(target).Schema`),
@@ -60,6 +61,7 @@ ordinary batch for the decoder and is written as `plain`. -/
 inductive PBatch
   | plain (schema : AFields) (row : CFields)
   | wrapped (inner : Option PBatch)
+  | empty (schema : AFields)      -- a batch with this schema and NO rows
 
 /-! ## Defaults (`setFieldFromString`) -/
 
@@ -156,6 +158,20 @@ def bind (env : FloatEnv) (fs : GoFields) (decl : Except Err AFields) : PBatch â
         | .ok vals => .handler vals
         | .error .unmodelled => .unmodelled
         | .error _ => .typeError
+      else .typeError
+  | .empty schema =>
+    -- the gate comes first; then "row 0 is what gets bound": without a row only a struct with no
+    -- tagged field (nothing to bind) reaches the handler
+    match decl with
+    | .error _ => .typeError
+    | .ok d =>
+      if fieldsEq schema d then
+        match d with
+        | .nil => match bindFields env fs .nil with
+          | .ok vals => .handler vals
+          | .error .unmodelled => .unmodelled
+          | .error _ => .typeError
+        | .cons _ _ _ _ => .typeError
       else .typeError
 
 end Vgi.Params
